@@ -8,6 +8,7 @@
 mod classif;
 mod clust;
 mod common;
+mod layout;
 mod regr;
 mod roc;
 
@@ -40,7 +41,19 @@ fn run_case(case: &Case, viols: &mut Sink) -> Cnt {
                 regr::run_regr_multi::<f64>(case, viols)
             }
         }
-        Case::Silhouette { .. } => clust::run_silhouette(case, viols),
+        Case::Silhouette { .. } | Case::SilhouetteF { .. } => clust::run_silhouette(case, viols),
+        Case::Layouts { base } => run_layouts(case, base, viols),
+        Case::Replicated { base, n, layouts } => {
+            let long = expand(base, *n);
+            let mut cnt = run_case(&long, viols);
+            cnt.bump("large.replicated_cases", 1);
+            oracle_self_check(case, base, &long, *n, viols);
+            if *layouts {
+                let w = Case::Layouts { base: Box::new(long) };
+                cnt.merge(run_case(&w, viols));
+            }
+            cnt
+        }
         Case::Pearson { float, .. } => {
             if float == "f32" {
                 clust::run_pearson::<f32>(case, viols)
@@ -48,6 +61,101 @@ fn run_case(case: &Case, viols: &mut Sink) -> Cnt {
                 clust::run_pearson::<f64>(case, viols)
             }
         }
+    }
+}
+
+/// Layout checks of one literal base case; violations carry the `Layouts` wrapper as their case.
+fn run_layouts(outer: &Case, base: &Case, viols: &mut Sink) -> Cnt {
+    match base {
+        Case::Regr { float, pred, truth, .. } => {
+            if float == "f32" {
+                regr::lay_regr::<f32>(outer, float, pred, truth, viols)
+            } else {
+                regr::lay_regr::<f64>(outer, float, pred, truth, viols)
+            }
+        }
+        Case::RegrMulti { float, pred_cols, truth_cols } => {
+            if float == "f32" {
+                regr::lay_regr_multi::<f32>(outer, float, pred_cols, truth_cols, viols)
+            } else {
+                regr::lay_regr_multi::<f64>(outer, float, pred_cols, truth_cols, viols)
+            }
+        }
+        Case::Scores { scores, truth, .. } => roc::lay_scores(outer, scores, truth, viols),
+        Case::Labels { ty, alphabet, pred, truth, .. } => match ty.as_str() {
+            "bool" => classif::lay_labels::<bool>(outer, alphabet, pred, truth, viols),
+            "usize" => classif::lay_labels::<usize>(outer, alphabet, pred, truth, viols),
+            _ => classif::lay_labels::<String>(outer, alphabet, pred, truth, viols),
+        },
+        Case::Silhouette { points, labels, .. } => clust::lay_silhouette::<f64>(outer, "f64", points, labels, viols),
+        Case::SilhouetteF { float, points, labels, .. } => {
+            if float == "f32" {
+                clust::lay_silhouette::<f32>(outer, float, points, labels, viols)
+            } else {
+                clust::lay_silhouette::<f64>(outer, float, points, labels, viols)
+            }
+        }
+        Case::Pearson { float, cols, .. } => {
+            if float == "f32" {
+                clust::lay_pearson::<f32>(outer, float, cols, viols)
+            } else {
+                clust::lay_pearson::<f64>(outer, float, cols, viols)
+            }
+        }
+        _ => panic!("no layout check for this kind of case"),
+    }
+}
+
+fn cyc<T: Clone>(v: &[T], n: usize) -> Vec<T> {
+    (0..n).map(|i| v[i % v.len()].clone()).collect()
+}
+
+/// The long literal case obtained by repeating the base cyclically up to n elements / rows.
+fn expand(base: &Case, n: usize) -> Case {
+    match base {
+        Case::Regr { float, pred, truth, .. } => Case::Regr { float: float.clone(), pred: cyc(pred, n), truth: cyc(truth, n), perms: "gen".into(), forms: false },
+        Case::RegrMulti { float, pred_cols, truth_cols } => {
+            Case::RegrMulti { float: float.clone(), pred_cols: pred_cols.iter().map(|c| cyc(c, n)).collect(), truth_cols: truth_cols.iter().map(|c| cyc(c, n)).collect() }
+        }
+        Case::Scores { scores, truth, .. } => Case::Scores { scores: cyc(scores, n), truth: cyc(truth, n), perms: "gen".into() },
+        Case::Labels { ty, alphabet, pred, truth, .. } => Case::Labels { ty: ty.clone(), alphabet: alphabet.clone(), pred: cyc(pred, n), truth: cyc(truth, n), perms: "gen".into() },
+        Case::Silhouette { points, labels, .. } => Case::Silhouette { points: cyc(points, n), labels: cyc(labels, n), perms: "none".into() },
+        Case::SilhouetteF { float, points, labels, .. } => Case::SilhouetteF { float: float.clone(), points: cyc(points, n), labels: cyc(labels, n), perms: "none".into() },
+        Case::Pearson { float, cols, .. } => Case::Pearson { float: float.clone(), cols: cols.iter().map(|c| cyc(c, n)).collect(), perms: "gen".into() },
+        _ => panic!("this kind of case cannot be replicated"),
+    }
+}
+
+/// Closed form: when n is a multiple of the base length, every regression score and every Pearson
+/// coefficient of the replicated input equals that of the base (ratios of sums; medians of k-fold
+/// multisets). This validates the harness's own references on the long inputs.
+fn oracle_self_check(outer: &Case, base: &Case, long: &Case, n: usize, viols: &mut Sink) {
+    match (base, long) {
+        (Case::Regr { pred: bp, truth: bt, .. }, Case::Regr { pred, truth, .. }) if n % bp.len() == 0 => {
+            let a = regr::reference(bp, bt);
+            let b = regr::reference(pred, truth);
+            for i in 0..8 {
+                let ok = match (a.v[i], b.v[i]) {
+                    (Some(x), Some(y)) => common::closef(x.0, y.0, 1e-9, 1e-12, x.1),
+                    (None, None) => true,
+                    _ => false,
+                };
+                if !ok {
+                    report!(viols, "harness.replication_oracle_self_check", outer, json!({"metric": regr::NAMES[i]}), "reference of the base {:?} and of its {}-fold replication {:?} differ", a.v[i], n / bp.len(), b.v[i]);
+                }
+            }
+        }
+        (Case::Pearson { cols: bc, .. }, Case::Pearson { cols, .. }) if n % bc[0].len() == 0 => {
+            let nonconst = |c: &Vec<Vec<f64>>| c.iter().all(|c| c.iter().any(|x| *x != c[0]));
+            if nonconst(bc) && nonconst(cols) {
+                let a = clust::ref_pearson(bc);
+                let b = clust::ref_pearson(cols);
+                if !a.iter().zip(&b).all(|(x, y)| common::closef(*x, *y, 1e-9, 1e-9, 1.0)) {
+                    report!(viols, "harness.replication_oracle_self_check", outer, json!({"metric": "pearson"}), "reference of the base {:?} and of its replication {:?} differ", a, b);
+                }
+            }
+        }
+        _ => {}
     }
 }
 
@@ -179,6 +287,8 @@ fn main() {
          (c) regression: every prediction vector x every non-constant truth vector of length 2..4 over {-2,-1,0,.5,1,3} in f64 (thorough: also length 5 over {-2,0,.5,1,3}; f32: 2..3 / 2..4), plus a 2-column matrix case for n<=3 / n<=4; \
          (d) silhouette: every multiset of 4..6 / 4..7 points of {0..4} (multiplicity <=2) and every 4..5 / 4..6 subset of the 3x3 lattice x every labelling with 2 (n<=5) or 3 (n>=6) label values; \
          (c2/b2) structured long vectors: regression vectors of every length 6..40 / 6..72 whose absolute errors are every strided permutation (stride coprime to n, every offset [every third in quick]) of n distinct values, and score vectors of length 6..20 / 6..32 with heavy ties ((i*s+o) mod m)/m, m in {2,3,4,7}; \
+         (L) memory layouts: a subset of (a)-(e) (see source: L-regression, L-scores, L-labels, L-silhouette, L-Pearson) with every input handed over as reversed view of a reversed copy, every-second / every-third element view of a poisoned parent, column-major owned matrix, transposed view of a feature-major matrix, reversed-row view, every-second-row / every-second-column view of a poisoned parent (all combinations of prediction and truth layout); the result must equal the standard-layout run (discrete outputs exactly, floats within twice the tolerance; the share of bit-identical values is reported); \
+         (N) large inputs: bases of length 3,4,5,7,17,25 repeated cyclically to n = 1025 and n = 4097 rows for every metric family (silhouette at 4097: thorough only) incl. 17- and 33-column multi-target / Pearson matrices, through the same references (for n a multiple of the base length the reference must also equal the base's: closed form), also under the layouts; (F) silhouette in f32; \
          (e) Pearson: every matrix with 2..4 rows and 2..3 columns (quick) / up to 5 rows or 4 columns (thorough) over {-1,0,2} (and {-1,0,.5,2}), plus every 4x4 and 3x5 (thorough: 4x5) matrix over {-1,2} so that the order of the packed coefficients is observable. \
          Every case is additionally re-run under permutations applied to both sides: all n!-1 for small n (usize/String labels n<=4, bool n<=4/5, scores n<=4/5, regression n<=3/4, silhouette n<=4/5, Pearson rows<=4), the generating set {swap(0,1), rotation, reversal} beyond (the sweep visits every input, so invariance under generators at every input implies invariance under every permutation); quick runs the longest regression length without explicit permutations. \
          evaluations = distinct in-domain inputs run through all of their metrics; non-trivial = labels: >=2 classes and prediction != truth; scores: 0 < AUC < 1; regression: prediction != truth; silhouette: every in-domain labelling; Pearson: some |r| < 1.",
@@ -187,7 +297,7 @@ fn main() {
     ctx.assume("the private cells of ConfusionMatrix are observed through its Debug table");
     ctx.assume("f32 scores of the classification metrics: relative 1e-5 + absolute 1e-6 against the f64 reference; NaN is demanded exactly where the documented quotient is 0/0");
     ctx.assume("ROC curve points / thresholds: 2e-6 absolute; AUC 1e-5 absolute against Mann-Whitney U/(P*N) with ties 1/2; ROC needs both classes (single-class truth vectors counted out_of_domain for ROC, still used for log-loss); scores closer than 1e-10 to each other (the implementation's tie tolerance) are not in the alphabets");
-    ctx.assume("log-loss reference clips to [f32::EPSILON, 1 - f32::EPSILON] as the implementation documents by its code (the rustdoc gives no clip level); tolerance relative 1e-5 + 1e-6");
+    ctx.assume("log-loss reference clips to [f32::EPSILON, 1 - f32::EPSILON] as the implementation documents by its code (the rustdoc gives no clip level); tolerance relative max(1e-5, n * 2^-24) + 1e-6 (the subject sums n f32 terms sequentially; the n-term exceeds 1e-5 only for the n >= 1025 inputs)");
     ctx.assume("regression tolerance: f64 relative 1e-9 (f32 1e-4) scaled by the operand magnitude (max error, squared max error, SSres/SStot); R2 / explained variance additionally 2*ratio*1e-10/SStot for the documented 1e-10 denominator guard; MSLE only for inputs > -1, MAPE only for receivers without a 0 entry, R2 / EV only for non-constant truth (filtered inputs counted)");
     ctx.assume("silhouette: euclidean, domain = >=2 clusters each with >=2 distinct points (others counted out_of_domain), tolerance 1e-9; Pearson: non-constant columns, >=2 rows, tolerance 1e-9 (f32 1e-4); permuted re-runs of float scores may differ by twice the tolerance (reordered sums), discrete outputs must be identical");
     ctx.assume("the p-values of PearsonCorrelation (entropy-seeded permutation test) are not part of the property and not checked");
@@ -372,6 +482,198 @@ fn main() {
         for first in en::sequences(*rows, alpha.len()) {
             groups.push(Group::Pearson { float, alphabet: alpha.clone(), first: first.iter().map(|&i| alpha[i]).collect(), ncols: *ncols, perms: pm(*rows, 4) });
         }
+    }
+
+    // ------------------------------------------------------------------ hardening families
+    // (L) memory layouts on a subset of the catalogue; (N) replicated inputs with n in {1025, 4097}
+    // (and 17 / 33 columns); (F) f32 silhouette.
+    let lay = |c: Case| Case::Layouts { base: Box::new(c) };
+    let chunked = |groups: &mut Vec<Group>, cases: Vec<Case>, per: usize| {
+        let mut it = cases.into_iter().peekable();
+        while it.peek().is_some() {
+            groups.push(Group::Explicit { cases: it.by_ref().take(per).collect() });
+        }
+    };
+    {
+        let mut cases: Vec<Case> = Vec::new();
+        // L-regression, single target: every (pred, truth) of length 2 (quick) / 2..3 (thorough) over the
+        // alphabet whose truth is non-constant, f64 and f32; plus structured vectors of length 5..33
+        for float in ["f64", "f32"] {
+            for n in 2..=ctx.pick(2usize, 3usize) {
+                for p in en::sequences(n, ralpha.len()) {
+                    for t in en::sequences(n, ralpha.len()) {
+                        if t.iter().all(|&x| x == t[0]) {
+                            continue;
+                        }
+                        if ctx.thorough() && n == 3 && float == "f32" && (p[0] + t[0]) % 3 != 0 {
+                            continue;
+                        }
+                        cases.push(lay(Case::Regr { float: float.into(), pred: p.iter().map(|&i| ralpha[i]).collect(), truth: t.iter().map(|&i| ralpha[i]).collect(), perms: "none".into(), forms: false }));
+                    }
+                }
+            }
+            for n in [5usize, 8, 9, 16, 17, 32, 33] {
+                for st in [1usize, 3] {
+                    let truth: Vec<f64> = (0..n).map(|i| (i % 5) as f64 * 0.5 + 1.0).collect();
+                    let pred: Vec<f64> = (0..n).map(|i| truth[i] + if i % 2 == 0 { 0.25 } else { -0.25 } * (1 + (i * st) % n) as f64).collect();
+                    cases.push(lay(Case::Regr { float: float.into(), pred, truth, perms: "none".into(), forms: false }));
+                }
+            }
+        }
+        // L-regression, multi target: 2 and 3 columns of length 2..4 built from the alphabet by rotation
+        for float in ["f64", "f32"] {
+            for n in 2..=ctx.pick(3usize, 4usize) {
+                for (k, p) in en::sequences(n, ralpha.len()).into_iter().enumerate() {
+                    if k % ctx.pick(7, 2) != 0 {
+                        continue;
+                    }
+                    let pc: Vec<f64> = p.iter().map(|&i| ralpha[i]).collect();
+                    let t0: Vec<f64> = (0..n).map(|i| ralpha[(p[i] + i + 1) % ralpha.len()]).collect();
+                    if t0.iter().all(|x| *x == t0[0]) {
+                        continue;
+                    }
+                    let rev: Vec<f64> = pc.iter().rev().cloned().collect();
+                    let rot: Vec<f64> = (0..n).map(|i| t0[(i + 1) % n]).collect();
+                    let mut pcs = vec![pc.clone(), rot.clone()];
+                    let mut tcs = vec![t0.clone(), rev.clone()];
+                    if k % 2 == 0 {
+                        pcs.push(rev);
+                        tcs.push(rot);
+                    }
+                    if tcs.iter().any(|c| c.iter().all(|x| *x == c[0])) {
+                        continue;
+                    }
+                    cases.push(lay(Case::RegrMulti { float: float.into(), pred_cols: pcs, truth_cols: tcs }));
+                }
+            }
+        }
+        // L-scores: every score vector of length 2..3 (thorough: ..4) x every truth
+        for n in 2..=ctx.pick(3usize, 4usize) {
+            for sv in en::sequences(n, 5) {
+                for t in en::sequences(n, 2) {
+                    cases.push(lay(Case::Scores { scores: sv.iter().map(|&i| score_alpha[i]).collect(), truth: t.iter().map(|&x| x == 1).collect(), perms: "none".into() }));
+                }
+            }
+        }
+        // L-labels: bool n<=3 (4), usize / String n<=3 over three letters (thorough: n = 4 over four letters for String)
+        for n in 1..=ctx.pick(3usize, 4usize) {
+            for p in en::sequences(n, 2) {
+                for t in en::sequences(n, 2) {
+                    cases.push(lay(Case::Labels { ty: "bool".into(), alphabet: strs(&["false", "true"]), pred: p.clone(), truth: t, perms: "none".into() }));
+                }
+            }
+        }
+        for (ty, alpha) in [("usize", strs(&["3", "7", "10", "42"])), ("string", strs(&["cat", "ant", "dog", "bee"]))] {
+            for n in 1..=3usize {
+                for p in en::sequences(n, 3) {
+                    for t in en::sequences(n, 3) {
+                        cases.push(lay(Case::Labels { ty: ty.into(), alphabet: alpha.clone(), pred: p.clone(), truth: t, perms: "none".into() }));
+                    }
+                }
+            }
+            if ctx.thorough() && ty == "string" {
+                for p in en::sequences(4, 4) {
+                    for t in en::sequences(4, 4) {
+                        cases.push(lay(Case::Labels { ty: ty.into(), alphabet: alpha.clone(), pred: p.clone(), truth: t, perms: "none".into() }));
+                    }
+                }
+            }
+        }
+        // L-silhouette (f64 and f32): every 4-subset (thorough: and 5-subset) of the 3x3 lattice x every 2-labelling
+        for float in ["f64", "f32"] {
+            for ss in en::subsets_upto(9, 4, ctx.pick(4, 5)) {
+                if float == "f32" && ctx.quick() && ss[0] != 0 {
+                    continue;
+                }
+                for l in en::sequences(ss.len(), 2) {
+                    let points: Vec<Vec<f64>> = ss.iter().map(|&i| lat[i].iter().map(|&v| v as f64).collect()).collect();
+                    cases.push(lay(Case::SilhouetteF { float: float.into(), points, labels: l.iter().map(|&i| SIL_LABEL_VALUES[i]).collect(), perms: "none".into() }));
+                }
+            }
+        }
+        // L-Pearson: every 3x3 matrix over {-1,0,2} (f64, f32), every 4x4 over {-1,2} (f64; thorough)
+        for float in ["f64", "f32"] {
+            for q in en::sequences(9, 3) {
+                cases.push(lay(Case::Pearson { float: float.into(), cols: (0..3).map(|c| q[c * 3..c * 3 + 3].iter().map(|&i| pa3[i]).collect()).collect(), perms: "none".into() }));
+            }
+        }
+        if ctx.thorough() {
+            for q in en::sequences(16, 2) {
+                cases.push(lay(Case::Pearson { float: "f64".into(), cols: (0..4).map(|c| q[c * 4..c * 4 + 4].iter().map(|&i| pa2[i]).collect()).collect(), perms: "none".into() }));
+            }
+        }
+        // F-silhouette: f32 over every 4..5 (thorough ..6) subset of the lattice x every labelling, generators
+        for ss in en::subsets_upto(9, 4, ctx.pick(5, 6)) {
+            let n = ss.len();
+            let k = if n >= 6 { 3 } else { 2 };
+            for l in en::sequences(n, k) {
+                let points: Vec<Vec<f64>> = ss.iter().map(|&i| lat[i].iter().map(|&v| v as f64 + if i % 2 == 0 { 0.1 } else { 0.0 }).collect()).collect();
+                cases.push(Case::SilhouetteF { float: "f32".into(), points, labels: l.iter().map(|&i| SIL_LABEL_VALUES[i]).collect(), perms: "gen".into() });
+            }
+        }
+        ctx.extra("hardening.layout_and_f32_cases_enumerated", json!(cases.len()));
+        chunked(&mut groups, cases, 400);
+    }
+    {
+        // (N) large inputs. 1025 = 5 * 5 * 41 and 4097 = 17 * 241: bases of length 5 / 25 / 17 replicate
+        // exactly (closed forms: scores equal those of the base), lengths 3, 4, 7 leave a partial block.
+        let mut cases: Vec<Case> = Vec::new();
+        let sizes: Vec<usize> = vec![1025, 4097];
+        let rep = |c: Case, n: usize, layouts: bool| Case::Replicated { base: Box::new(c), n, layouts };
+        for &n in &sizes {
+            for float in ["f64", "f32"] {
+                for m in [3usize, 4, 5, 7, 17, 25] {
+                    for variant in 0..2usize {
+                        let truth: Vec<f64> = (0..m).map(|i| ((i * (variant + 1)) % 5) as f64 * 0.5 + 1.0 + if i == 0 { 0.5 } else { 0.0 }).collect();
+                        let pred: Vec<f64> = (0..m).map(|i| truth[i] + if (i + variant) % 2 == 0 { 0.25 } else { -0.25 } * (1 + (i * (2 * variant + 1)) % m) as f64).collect();
+                        cases.push(rep(Case::Regr { float: float.into(), pred, truth, perms: "gen".into(), forms: false }, n, true));
+                    }
+                }
+                // multi-target with 2, 17 and 33 columns
+                for ncols in [2usize, 17, 33] {
+                    let m = if n == 1025 { 25 } else { 17 };
+                    let tcs: Vec<Vec<f64>> = (0..ncols).map(|j| (0..m).map(|i| ((i * (j % 4 + 1) + j) % 7) as f64 * 0.5 + 1.0).collect()).collect();
+                    let pcs: Vec<Vec<f64>> = (0..ncols).map(|j| (0..m).map(|i| tcs[j][i] + (((i + 2 * j) % 5) as f64 - 2.0) * 0.25).collect()).collect();
+                    cases.push(rep(Case::RegrMulti { float: float.into(), pred_cols: pcs, truth_cols: tcs }, n, true));
+                }
+                // Pearson with 3, 17, 33 columns
+                for ncols in [3usize, 17, 33] {
+                    for m in [7usize, if n == 1025 { 25 } else { 17 }] {
+                        let cols: Vec<Vec<f64>> = (0..ncols).map(|j| (0..m).map(|i| ((i * (j % 5 + 1) + j * j) % 7) as f64 - 3.0 + if (i + j) % 3 == 0 { 0.5 } else { 0.0 }).collect()).collect();
+                        cases.push(rep(Case::Pearson { float: float.into(), cols, perms: "gen".into() }, n, true));
+                    }
+                }
+            }
+            // scores with heavy ties and boundary scores
+            for (m, modulus) in [(5usize, 4usize), (7, 3), (17, 5), (25, 7)] {
+                let scores: Vec<f32> = (0..m).map(|i| ((i * 3 + 1) % (modulus + 1)) as f32 / modulus as f32).collect();
+                let truth: Vec<bool> = (0..m).map(|i| i % 3 == 0 || i == m - 1).collect();
+                cases.push(rep(Case::Scores { scores, truth, perms: "gen".into() }, n, true));
+            }
+            // labels
+            for (ty, alpha) in [("bool", strs(&["false", "true"])), ("usize", strs(&["3", "7", "10", "42"])), ("string", strs(&["cat", "ant", "dog", "bee"]))] {
+                for m in [5usize, 7, 17] {
+                    let a = alpha.len();
+                    let pred: Vec<usize> = (0..m).map(|i| (i * 3 + 1) % a).collect();
+                    let truth: Vec<usize> = (0..m).map(|i| (i * i + i / 2) % a).collect();
+                    cases.push(rep(Case::Labels { ty: ty.into(), alphabet: alpha.clone(), pred, truth, perms: "gen".into() }, n, true));
+                }
+            }
+            // silhouette: 8 lattice points in two / three clusters, replicated (f64 and f32); layouts at 1025 only
+            for float in ["f64", "f32"] {
+                for k in [2usize, 3] {
+                    let m = 8usize;
+                    let points: Vec<Vec<f64>> = (0..m).map(|i| vec![(i % 3) as f64, (i / 3) as f64 + if i % 2 == 0 { 0.25 } else { 0.0 }]).collect();
+                    let labels: Vec<usize> = (0..m).map(|i| SIL_LABEL_VALUES[(i * 5 + i / 4) % k]).collect();
+                    if n == 4097 && (k == 3 || ctx.quick()) {
+                        continue; // 4097^2 pair distances: thorough only, two clusters
+                    }
+                    cases.push(rep(Case::SilhouetteF { float: float.into(), points, labels, perms: "none".into() }, n, n == 1025 && float == "f64" && k == 2 && ctx.thorough()));
+                }
+            }
+        }
+        ctx.extra("hardening.large_cases_enumerated", json!(cases.len()));
+        chunked(&mut groups, cases, 1);
     }
 
     let enumerated: u64 = groups.iter().map(|g| g.size()).sum();
